@@ -4,9 +4,11 @@
    "never crashes" is a statement and not true by construction.  Proved here: the lexer and the parser
    are total functions whose only outcomes are a token list / tree or a positioned diagnostic; the
    token invariants on which the literal constructors rely (so that IntegerNode/RealNode/CharNode cannot
-   hit an unchecked conversion); the arithmetic leaves cannot trap.  That the evaluator never reaches an
-   FCrash is checked by the correspondence on the crash oracle (normal + sanitizer build), not yet proved. *)
-From PE2 Require Import Lexer Parser Eval Run Lemmas_Lexer Lemmas_Expr Lemmas_Fuel Lemmas_FuelRun Lemmas_Out Lemmas_LexTotal Lemmas_ParserFuel.
+   hit an unchecked conversion); the arithmetic leaves cannot trap; and one family of evaluator aborts is excluded for every
+   program: the evaluator never finds a variable's cell holding an object of another class than its type says
+   (C01_no_cell_of_the_wrong_class, program logic of Lemmas_ConstLogic.v).  That the evaluator reaches none of the OTHER FCrash
+   outcomes is checked by the correspondence on the crash oracle (normal + sanitizer build), not proved. *)
+From PE2 Require Import Lexer Parser Eval Run Lemmas_Lexer Lemmas_Expr Lemmas_Fuel Lemmas_FuelRun Lemmas_Out Lemmas_LexTotal Lemmas_ParserFuel Lemmas_ConstLogic Lemmas_ConstThm.
 Local Open Scope Z_scope.
 
 (* every CHAR token holds exactly one character; every INTEGER/REAL token is non-empty and starts with a digit *)
@@ -67,3 +69,18 @@ Print Assumptions C01_output_is_append_only.
 (* non-vacuity: a crash outcome exists in the model and is reachable for ill-formed internal states *)
 Example C01_crash_is_observable : exists r s, as_int r s = (Fail (FCrash "get<Integer> on other payload"), s).
 Proof. exists (mkRes (dt_prim KInt) (Some (PStr []))), (mkSt 0%N nm_empty nm_empty nm_empty [] [] [] [] [] [] 0 0 0 []). reflexivity. Qed.
+
+(* no type confusion: from any state that satisfies the heap invariant (the initial state does, every block and every REPL entry
+   keeps it: C05, C12), the evaluator never ends in the abort that stands for "a variable's cell holds an object of another class
+   than its declared type says" -- in the C++ a static_cast to the wrong class.  The sites (assignment to enumerated, pointer and
+   record variables, the FOR counter, pointer assignment, dereference, field access) are each excluded by the kind clause of the
+   invariant; proved in the program logic, whose triples forbid exactly this outcome. *)
+Theorem C01_no_cell_of_the_wrong_class : forall ped repl lim fuel bl c s, Inv s ->
+  fst (run_block ped repl lim fuel bl c s) <> Fail (FCrash "cell payload disagrees with its type").
+Proof. exact run_block_never_finds_a_cell_of_the_wrong_class. Qed.
+Print Assumptions C01_no_cell_of_the_wrong_class.
+
+Theorem C01_no_cell_of_the_wrong_class_in_expressions : forall ped repl lim fuel n c s, Inv s ->
+  fst (ev_eval (evs_at ped repl lim fuel) n c s) <> Fail (FCrash "cell payload disagrees with its type").
+Proof. exact eval_never_finds_a_cell_of_the_wrong_class. Qed.
+Print Assumptions C01_no_cell_of_the_wrong_class_in_expressions.
